@@ -22,6 +22,7 @@ use plonky2_field::types::{Field, Field64, PrimeField, PrimeField64, Sample};
 use serde::{Deserialize, Serialize};
 
 pub mod algebra;
+pub mod codec;
 pub mod ctx;
 pub mod poly;
 pub mod fri;
